@@ -297,6 +297,15 @@ def box_zone(mode, part, nparts):
                 "TimePoint(2001, time_zone_hour=%d, time_zone_minute=%d)" % (h, m),
                 valid, _try(lambda: D.TimePoint(year=2001, time_zone_hour=h,
                                                 time_zone_minute=m)), "zone")
+            if nt and (h + m) % 3 == 0:
+                # the same pair as a parser's assumed zone, applied to a text
+                # without a zone designator
+                yield ("za", h, m), nt, _judge(
+                    "TimePointParser(assumed_time_zone=(%d, %d)).parse("
+                    "'2001-02-03T04:05')" % (h, m), valid,
+                    _try(lambda: parsers.TimePointParser(
+                        assumed_time_zone=(h, m)).parse("2001-02-03T04:05")),
+                    "zone_assumed")
             if h >= 0 and m >= 0 and h <= 99 and m <= 99:
                 for sg in "+-":
                     # text can only spell same-signed parts
